@@ -79,7 +79,5 @@ package accessory
 //@   requires a != nil
 //@   modifies heap, callcount
 
-// every characteristic reachable from the container is well typed (C12's invariant, lifted to the whole database)
-//@ pred charsOK(s) = forall(k, 0, len(s.Characteristics), s.Characteristics[k] != nil && wellTyped(s.Characteristics[k]) && finiteBounds(s.Characteristics[k]))
-//@ pred accOK(a) = a != nil && forall(j, 0, len(a.Services), a.Services[j] != nil && charsOK(a.Services[j]))
-//@ pred dbOK(m) = m != nil && forall(i, 0, len(m.Accessories), accOK(m.Accessories[i]))
+// listed(m): every characteristic reachable from the container is a member of the attribute database (dbmember)
+//@ pred listed(m) = m != nil && forall(i, 0, len(m.Accessories), m.Accessories[i] != nil && forall(j, 0, len(m.Accessories[i].Services), m.Accessories[i].Services[j] != nil && forall(k, 0, len(m.Accessories[i].Services[j].Characteristics), m.Accessories[i].Services[j].Characteristics[k] != nil && dbmember(ref(m.Accessories[i].Services[j].Characteristics[k])))))
